@@ -372,7 +372,49 @@ pub fn tr_expr(cx: &mut Ctx, e: &Expr, expected: Option<&Ty>) -> R<Tr> {
             Ok(Tr::new(format!("(List.replicate (Int.toNat {}) {})", n.s, v.val()), Ty::List(Box::new(v.ty))))
         }
         Expr::Return(_) => Err("return in expression position".into()),
-        Expr::Try(_) => Err("`?` in unsupported position".into()),
+        Expr::Try(t) => {
+            // `e?` inside an expression: hoisted in front of the enclosing statement as
+            // `match e with | none/.error => <early return> | some/.ok tmp => <statement and rest>`
+            let inner = tr_expr(cx, &t.expr, None)?;
+            let tmp = cx.fresh("q");
+            let ret_wrap = |cx: &Ctx, v: String| -> String {
+                let v = if cx.mut_self && cx.value_depth == 0 { cx.with_outs(&v) } else { v };
+                if cx.loop_ctx.is_empty() || cx.value_depth > 0 { v } else { format!("(LoopR.ret {})", v) }
+            };
+            match inner.ty.clone() {
+                Ty::Opt(v) => {
+                    if !matches!(cx.ret, Ty::Opt(_)) {
+                        return Err("`?` on Option in a non-Option function".into());
+                    }
+                    let r = ret_wrap(cx, "none".into());
+                    cx.prelude.push(format!("match {} with\n | none => {}\n | some {} =>\n", inner.s, r, tmp));
+                    Ok(Tr::new(tmp, *v))
+                }
+                Ty::Res(v, e1) => {
+                    let conv = match &cx.ret {
+                        Ty::Res(_, e2) if **e2 != *e1 => {
+                            if let Ty::Enum(n2) = &**e2 {
+                                let k = format!("{}::from", n2);
+                                if cx.idx.fns.contains_key(&k) {
+                                    cx.deps.insert(k);
+                                    format!("(.error ({}.from (α := α) e_))", n2)
+                                } else {
+                                    return Err("? with error conversion".into());
+                                }
+                            } else {
+                                return Err("? with error conversion".into());
+                            }
+                        }
+                        Ty::Res(_, _) => "(.error e_)".to_string(),
+                        _ => return Err("`?` on Result in a non-Result function".into()),
+                    };
+                    let r = ret_wrap(cx, conv);
+                    cx.prelude.push(format!("match {} with\n | .error e_ => {}\n | .ok {} =>\n", inner.s, r, tmp));
+                    Ok(Tr::new(tmp, *v))
+                }
+                other => Err(format!("? on {:?}", other)),
+            }
+        }
         Expr::Closure(_) => Err("closure in unsupported position".into()),
         Expr::Let(_) => Err("let-expression in unsupported position".into()),
         Expr::Loop(_) | Expr::While(_) | Expr::ForLoop(_) => Err("loop in expression position".into()),
